@@ -53,16 +53,19 @@ Definition mk_menv (confstr ctypes exe policy : list N) : menv :=
   {| m_confstr := parse_confstr confstr; m_ctypes := parse_ctypes ctypes; m_exe := parse_exe_arg exe; m_policy := parse_policy policy |}.
 Definition commas (l : list (list N)) : list N := join [44] l.
 Definition obs_many (archs confstr ctypes exe policy : list N) : list N :=
-  commas (manylinux_tags (mk_menv confstr ctypes exe policy) (parse_list archs)).
+  commas (manylinux_tags_l default_intmax (mk_menv confstr ctypes exe policy) (parse_list archs)).
 Definition obs_musl (archs exe stderr : list N) : list N :=
   fields [commas (musllinux_tags (parse_exe_arg exe) stderr (parse_list archs));
           match musl_loader (parse_exe_arg exe) with Some ld => 83 :: ld | None => [45] end].
-(* ---- the probe through a regular file and the real subprocess.run (PlatLoader.v) ----
+(* ---- the probe through a regular file and subprocess.run (PlatLoader.v); on the implementation side subprocess.run is a stand-in that
+   raises what the real one raises (plat_impl.linux_env), except for p.muslreal, which runs the real subprocess.run on generated loader
+   scripts (runs / not executable / a directory / missing / NUL in the path) ----
    limits: "" = 2^63 (what io.BytesIO has), else the decimal value; loaders: "" or "*" = every NUL-free path exists, else ",p1,p2" *)
 Definition parse_lim1 (s : list N) : N := match s with [] => ssize_limit | _ :: _ => parse_N s end.
 Definition mk_lim (a b : list N) : file_limits := {| seek_max := parse_lim1 a; read_max := parse_lim1 b |}.
 Definition mk_le (loaders stderr : list N) : loader_env :=
-  {| le_all := match loaders with [] => true | c :: _ => c =? 42 end; le_existing := parse_list loaders; le_stderr := stderr |}.
+  {| le_all := match loaders with [] => true | c :: _ => c =? 42 end; le_existing := parse_list loaders; le_stderr := stderr;
+     le_intmax := default_intmax |}.
 (* ELFFile(open(path, "rb")) *)
 Definition obs_elf_disk (f seekmax readmax : list N) : list N :=
   match parse_header f with
@@ -74,6 +77,8 @@ Definition obs_musl_x (archs exe stderr loaders seekmax readmax : list N) : list
   let lim := mk_lim seekmax readmax in
   fields [commas (musllinux_tags_x lim (parse_exe_arg exe) (mk_le loaders stderr) (parse_list archs));
           match musl_loader_disk lim (parse_exe_arg exe) with Some ld => 83 :: ld | None => [45] end].
+Definition obs_musl_real (archs exe stderr loaders seekmax readmax : list N) : list N :=
+  commas (musllinux_tags_x (mk_lim seekmax readmax) (parse_exe_arg exe) (mk_le loaders stderr) (parse_list archs)).
 (* a battery of probe steps without cache_clear(): args = archs, then 6 per step: key confstr ctypes exe policy stderr *)
 Fixpoint parse_steps (fuel : nat) (args : list (list N)) : list pstep :=
   match fuel, args with
@@ -96,6 +101,7 @@ Definition run_plat (cmd : list N) (args : list (list N)) : option (list N) :=
   if seqb cmd (asc "p.elf") then Some (obs_elf (a 0%nat))
   else if seqb cmd (asc "p.many") then Some (obs_many (a 0%nat) (a 1%nat) (a 2%nat) (a 3%nat) (a 4%nat))
   else if seqb cmd (asc "p.musl") then Some (obs_musl_x (a 0%nat) (a 1%nat) (a 2%nat) (a 3%nat) (a 4%nat) (a 5%nat))
+  else if seqb cmd (asc "p.muslreal") then Some (obs_musl_real (a 0%nat) (a 1%nat) (a 2%nat) (a 3%nat) (a 4%nat) (a 5%nat))
   else if seqb cmd (asc "p.elff") then Some (obs_elf_disk (a 0%nat) (a 1%nat) (a 2%nat))
   else if seqb cmd (asc "p.probes") then Some (obs_probes args)
   else if seqb cmd (asc "p.mac") then Some (commas (mac_platforms (pair_nat (a 0%nat) (a 1%nat)) (a 2%nat)))
